@@ -911,8 +911,10 @@ def run(tier, rng):
         'disagreeing_cells_per_target': disagree,
         'exception_cells_agreeing_with_model': errors_agreed,
         'histograms': histograms(all_rows),
-        'exhaustive': {'dates_1900_2100': tier == 'thorough', 'strings_len_le_4': tier == 'thorough',
-                       'account_names_1_5_components': True, 'decimals_4_digits': False},
+        # true when the whole finite space named by the quantifier (every date 1900..2100 x every unit) was enumerated
+        'exhaustive': tier == 'thorough',
+        'exhaustive_domains': {'dates_1900_2100_x_units': tier == 'thorough', 'strings_len_le_4_x_indexes': tier == 'thorough',
+                               'account_names_1_5_components': True, 'decimals_4_digits': False},
     }
     return {'coverage': cov, 'violations': violations}
 
